@@ -72,7 +72,7 @@ Proof.
   intros Hm L Hk Hlo Hhi c Hsp.
   destruct (live_inside _ _ _ _ _ Hm L) as (c' & Hsp' & Hi0 & Hbs0 & _ & Hcap & G1 & G2 & G3 & G4 & G5 & G6 & G7).
   destruct L as (Hcs & Hcp & Hg).
-  pose proof (seg_ok_In _ _ Hm Hcs) as Hs. pose proof Hs as (A1 & A2 & A3 & A4 & Hinv & _ & _ & _ & Hc256).
+  pose proof (seg_ok_In _ _ Hm Hcs) as Hs. pose proof Hs as (A1 & A2 & A3 & A4 & Hinv & _ & _ & _ & Hc256 & _).
   destruct (used_spans_disjoint _ Hinv) as (Hdis & _).
   assert (c' = c).
   { destruct (Hdis _ _ _ _ Hsp' Hsp) as [(_ & E)|Hd]; [assumption|].
@@ -89,6 +89,37 @@ Proof.
   rewrite andb_true_r. apply andb_true_intro. split.
   - apply N.leb_le. unfold MI_SEGMENT_SIZE, MI_SEGMENT_SLICE_SIZE in *. lia.
   - apply orb_true_iff. left. apply N.leb_le. unfold MI_MAX_SLICE_OFFSET_COUNT in *. lia.
+Qed.
+
+(* the start address of every live block can be resolved (a huge page holds one block, at its start) *)
+Lemma resolvable_start m cs cp b r : mem_inv m -> live_at m cs cp b r ->
+  forall c, In (cp_idx cp, c) (used_spans (fst (cs_st cs))) ->
+  resolvable_b cs (cp_idx cp) c (block_addr cs cp b) = true.
+Proof.
+  intros Hm L c Hsp.
+  destruct (live_inside _ _ _ _ _ Hm L) as (c' & Hsp' & Hi0 & Hbs0 & _ & Hcap & G1 & G2 & G3 & G4 & G5 & G6 & G7).
+  destruct (kind (fst (cs_st cs))) eqn:Hk.
+  - apply (resolvable_normal m cs cp b r _ Hm L Hk); [lia|lia|assumption].
+  - destruct L as (Hcs & Hcp & Hg).
+    pose proof (seg_ok_In _ _ Hm Hcs) as Hs. pose proof Hs as (A1 & A2 & A3 & A4 & Hinv & _ & _ & _ & _ & Hh1).
+    destruct (page_ok_In _ _ Hs Hcp) as (Hpi & _). destruct Hpi as (_ & Hcr & _).
+    specialize (Hh1 Hk cp Hcp).
+    assert (b = 0) by lia. subst b.
+    assert (Ep : block_addr cs cp 0 = fst (page_area cs (cp_idx cp))) by (unfold block_addr; lia).
+    rewrite Ep in *. set (start := fst (page_area cs (cp_idx cp))) in *.
+    destruct (used_spans_disjoint _ Hinv) as (_ & R). destruct (R _ _ Hsp) as (_ & Hin & _ & _).
+    destruct Hinv as (sps & mm & Hinv). pose proof Hinv as (_ & _ & _ & _ & _ & _ & _ & _ & _ & Hn & _). cbn [fst snd] in Hn.
+    unfold resolvable_b.
+    assert (Hs1 : slice_index_of (cs_base cs) start = (start - cs_base cs) / MI_SEGMENT_SLICE_SIZE).
+    { unfold slice_index_of. rewrite wsub_small by (unfold MI_SEGMENT_SLICE_SIZE in *; lia).
+      rewrite N.shiftr_div_pow2. reflexivity. }
+    rewrite Hs1.
+    assert (Hlt : (start - cs_base cs) / MI_SEGMENT_SLICE_SIZE < cp_idx cp + 2).
+    { apply N.div_lt_upper_bound; unfold MI_SEGMENT_SLICE_SIZE in *; lia. }
+    apply andb_true_intro. split; [apply andb_true_intro; split|].
+    + apply N.leb_le. unfold MI_SEGMENT_SIZE, MI_SEGMENT_SLICE_SIZE, MI_SLICES_PER_SEGMENT in *. lia.
+    + apply orb_true_iff. right. apply N.leb_le. lia.
+    + apply orb_true_iff. left. apply N.leb_le. unfold MI_MAX_SLICE_OFFSET_COUNT. lia.
 Qed.
 
 (* C01_compose_free_resolves: mi_free of any (resolvable) address of a live block removes exactly it *)
